@@ -285,6 +285,26 @@ func TestVerif_C09(t *testing.T) {
 	if t.Failed() {
 		return
 	}
+	if vfOnlySub("huge") && !vfReplayMode() && vfShard() < 2 {
+		// a complete 70 KB / 1.1 MB document followed by something that does not belong there
+		base := vfBig("json-array", []int{70000, 1100000}[vfShard()])
+		for _, tail := range []string{"x", "]", ",", "{\"a\":1}", " \x0c", "\n[1]"} {
+			doc := append(append([]byte(nil), base...), tail...)
+			for _, L := range []uint32{0, uint32(len(doc) + 1), 2 << 20} {
+				c := c09Case{H: doc, Limit: L}
+				r := c09Check(c)
+				r.Labels = append(r.Labels, "huge")
+				vfStats.record(r, func() any { return map[string]any{"sub": "huge", "len": len(doc), "tail": tail, "limit": L} })
+				if r.Err != nil {
+					vfEnumFail(t, "C09", "mut", c09Case{H: doc[len(doc)-100:], Limit: 0}, fmt.Errorf("%d-byte complete document followed by %q, limit %d: %v", len(base), tail, L, r.Err))
+					return
+				}
+			}
+		}
+	}
+	if t.Failed() {
+		return
+	}
 	if vfOnlySub("mut") {
 		vfRun(t, vfSub[c09Case]{Prop: "C09", Name: "mut", Checks: vfN(60000, 12000000), Gen: c09GenMutant, Check: c09Check})
 	}
